@@ -1,4 +1,6 @@
 import AmVerif.Lemmas.CellStep
+import AmVerif.Lemmas.CellFail
+import AmVerif.Lemmas.CellLive
 /-!
 # C17 — `OnceInitCell` initialises once, keeps its seed on failure, drops once
 
@@ -159,5 +161,90 @@ theorem C17_seed_drop_panic (kind : Kind) (c : Nat) (calls : Nat → List Call) 
       have : sh.seedDrops + sh.seedLeaks ≤ 1 := hle
       omega
     · simp [getStep, getBlocks, getArm, h1, h2, Data.read]
+
+
+/-- **Failure keeps the seed.** Whenever a step makes a call end with the initialiser's error or
+panic, the state right after it has the once empty, the union holding the seed (as the
+initialiser left it), no destructor run, nothing forgotten, no value made — and that thread's call
+is over (the error / panic went to the caller). -/
+theorem C17_failure_keeps_seed (kind : Kind) (c : Nat) (calls : Nat → List Call) (σ : List Nat)
+    (t : Nat) (r : Res) (hf : r = .panicF ∨ ∃ e, r = .err e)
+    (hr : (((reach kind c calls σ).step t).ths t).results = r :: ((reach kind c calls σ).ths t).results) :
+    let s' := (reach kind c calls σ).step t
+    s'.sh.once = .empty ∧ (∃ c', s'.sh.data = .seed c') ∧ s'.sh.inits = 0 ∧
+      s'.sh.seedDrops = 0 ∧ s'.sh.seedLeaks = 0 ∧ (s'.ths t).act = none := by
+  have h := C17_one_owner kind c calls σ
+  generalize reach kind c calls σ = s at h hr
+  obtain ⟨sh, ths⟩ := s
+  unfold Sys.step at hr ⊢
+  cases hst : stepTh sh t (ths t) with
+  | none => rw [hst] at hr; exact absurd hr.symm (cons_ne_self _ _)
+  | some p =>
+    obtain ⟨sh', th'⟩ := p
+    rw [hst] at hr
+    simp only [upd_same] at hr ⊢
+    obtain ⟨a, c', hact, htok, hdata, rfl, hact'⟩ := stepTh_fail hst hr hf
+    obtain ⟨hrun, hin, hl1, hl2⟩ := callF_runner h hact htok
+    have hab : abort { sh with data := .seed (c' + a.out.delta) } t =
+        { sh with data := .seed (c' + a.out.delta), once := .empty } := by simp [abort, hrun]
+    rw [hab]
+    exact ⟨rfl, ⟨_, rfl⟩, hin, hl1, hl2, hact'⟩
+
+/-- **…so that a later attempt can succeed.** From any state with the once empty and the seed in
+the union (by `C17_failure_keeps_seed` that is the state after every failure; by `C17_one_owner`
+every reachable state with an empty once), a thread whose next call is a `get_or_try_init` with a
+succeeding initialiser initialises the cell when scheduled alone, wherever the other threads
+stand: there is a continuing schedule after which the cell holds the value made from the seed as
+the failures left it (`c + d`), and the caller has the reference (or, for a seed with a panicking
+destructor, that panic — the cell being initialised all the same). -/
+theorem C17_retry_succeeds (s : Sys) (t c d : Nat) (rest : List Call)
+    (h1 : s.sh.once = .empty) (h2 : s.sh.data = .seed c) (ha : (s.ths t).act = none)
+    (hc : (s.ths t).calls = .init ⟨.ok, d⟩ :: rest) :
+    ∃ σ', (run s σ').sh.once = .done ∧ (run s σ').sh.data = .value (c + d) ∧
+      ((run s σ').ths t).results =
+        (if s.sh.kind = .bomb then Res.panicDrop else .ref (c + d)) :: (s.ths t).results := by
+  obtain ⟨sh, ths⟩ := s
+  obtain ⟨n, hn⟩ := retry_succeeds sh ths t c d rest h1 h2 ha hc
+  exact ⟨List.replicate n t, hn⟩
+
+/-- **No deadlock.** In every reachable state in which some thread still has work (a call in
+flight or a call to make), some thread can take a step: callers blocked on the once wait for a
+closure that can always move on. (`get` itself is never blocked: `C17_get_never_blocks`.) -/
+theorem C17_no_deadlock (kind : Kind) (c : Nat) (calls : Nat → List Call) (σ : List Nat) (u : Nat)
+    (hw : ((reach kind c calls σ).ths u).act ≠ none ∨ ((reach kind c calls σ).ths u).calls ≠ []) :
+    ∃ t, stepTh (reach kind c calls σ).sh t ((reach kind c calls σ).ths t) ≠ none := by
+  have h := C17_one_owner kind c calls σ
+  generalize reach kind c calls σ = s at h hw
+  obtain ⟨sh, ths⟩ := s
+  exact no_deadlock h u hw
+
+/-! ## Non-vacuity: concrete schedules -/
+
+/-- thread 0: failing init (+2), then get; thread 1: succeeding init (+1); thread 2: panicking init (+4), then init -/
+def demoCalls : Nat → List Call
+  | 0 => [.init ⟨.err, 2⟩, .get]
+  | 1 => [.init ⟨.ok, 1⟩]
+  | 2 => [.init ⟨.panic, 4⟩, .init ⟨.ok, 100⟩]
+  | _ => []
+
+/-- thread 0 enters the closure first and fails, 2 panics, 1 succeeds while 2 is blocked, then all finish -/
+def demoSched : List Nat :=
+  [0, 1, 0, 0, 1, 1, 0, 0, 2, 2, 2, 2, 2, 1, 1, 1, 2, 1, 1, 2, 2, 1, 1, 1, 1, 1, 1, 0, 2, 2, 2]
+
+example : (reach .tracked 5 demoCalls demoSched).sh =
+    { kind := .tracked, once := .done, data := .value 12, inits := 1, seedDrops := 1 } := by decide
+example : ((reach .tracked 5 demoCalls demoSched).ths 0).results = [.ref 12, .err 7] := by decide
+example : ((reach .tracked 5 demoCalls demoSched).ths 1).results = [.ref 12] := by decide
+example : ((reach .tracked 5 demoCalls demoSched).ths 2).results = [.ref 12, .panicF] := by decide
+example : ∀ u, u < 3 → ((reach .tracked 5 demoCalls demoSched).ths u).act = none := by decide
+example : dropCell (reach .tracked 5 demoCalls demoSched).sh = ⟨1, 0, 1, false, false⟩ := by decide
+/-- a blocked caller: thread 1 at `onceEnter` while thread 0 is inside the closure -/
+example : stepTh (reach .tracked 5 demoCalls [0, 0, 0, 1, 1, 1]).sh 1 ((reach .tracked 5 demoCalls [0, 0, 0, 1, 1, 1]).ths 1) = none := by decide
+/-- panicking destructor: the caller sees the panic, the cell is initialised -/
+example : ((reach .bomb 5 demoCalls (List.replicate 12 1)).ths 1).results = [.panicDrop] ∧
+    (reach .bomb 5 demoCalls (List.replicate 12 1)).sh.once = .done := by decide
+/-- no-drop path: the seed is forgotten, never dropped -/
+example : (reach .plain 5 demoCalls (List.replicate 8 1)).sh =
+    { kind := .plain, once := .done, data := .value 6, inits := 1, seedLeaks := 1 } := by decide
 
 end AmVerif.Props.C17
